@@ -61,7 +61,8 @@ class AngularModel:
                                 ("_load_precomputed_angular_grid", self.f_load, ("degrees", "npoints", "package"))):
             mod_funcs = {g.name: g.node for g in repo.funcs.values()
                          if g.module == "angular" and g.cls is None and not g.is_lambda and isinstance(g.node, ast.FunctionDef)}
-            d = e4.string_dispatch(f.node.body, "method", mi.globals, mod_funcs)
+            mod_classes = {c_.name: c_ for c_ in mi.tree.body if isinstance(c_, ast.ClassDef)} if hasattr(mi, "tree") else {}
+            d = e4.string_dispatch(f.node.body, "method", mi.globals, mod_funcs, mod_classes)
             if d is None:
                 raise AnalysisError(f"unrecognised idiom: no `method == \"...\"` dispatch chain in AngularGrid.{name}")
             chain, else_body, node = d
